@@ -236,6 +236,214 @@ def d2_edges(ctx):
     ctx.check(const_value(dflt) == (True, -1), ff, ff.node, f"falls step default {src(dflt) if dflt else None}", "default falling step is -1", "default falling step changed", key="falls-default")
 
 
+# ---------------------------------------------------------------------------------------------------------------------
+# sync composition model: which rows / columns of the raw file a value is gathered from, through locals and two-step indexing
+# ---------------------------------------------------------------------------------------------------------------------
+class _G:
+    """columns `cols` of rows `rows` of the raw file (None = all); `chain` lists the column selections applied one after the other"""
+
+    def __init__(self, rows=None, chain=None, f32=False):
+        self.rows, self.chain, self.f32 = rows, list(chain or []), f32
+
+
+def _full(e):
+    return (isinstance(e, ast.Slice) and e.lower is None and e.upper is None and e.step is None) or (isinstance(e, ast.Constant) and e.value is Ellipsis)
+
+
+def _gather(du, e, at, depth=0):
+    """-> _G when `e` is (a cast of) a gather of self._raw, else None"""
+    if depth > 8:
+        return None
+    if isinstance(e, ast.Name):
+        ds = du.strong_reaching(e.id, at)
+        if ds and all(d.kind == "aug" for d in ds):
+            # scaled in place (x *= gains): the columns are those of the assignment the in-place statement acts on
+            ds = [d for d in du.defs if d.var == e.id and d.kind == "assign" and any(du.cfg.reachable(d.node, m.node) for m in ds)]
+        if len(ds) == 1 and ds[0].kind == "assign" and ds[0].value is not None and ds[0].unpack_index is None:
+            g = _gather(du, ds[0].value, ds[0].stmt, depth + 1)
+            if g is not None:
+                # scaled in place afterwards?  (x *= gains) keeps the gather
+                return g
+        return None
+    if isinstance(e, ast.Attribute) and loc_name(e) == "self._raw":
+        return _G()
+    if isinstance(e, ast.Call) and call_name(e) == "astype" and isinstance(e.func, ast.Attribute):
+        g = _gather(du, e.func.value, at, depth + 1)
+        if g is not None and e.args and "float32" in src(e.args[0]):
+            g.f32 = True
+        return g
+    if isinstance(e, ast.Call) and call_name(e) in ("float32", "asarray", "array", "ascontiguousarray") and e.args:
+        g = _gather(du, e.args[0], at, depth + 1)
+        if g is not None and call_name(e) == "float32":
+            g.f32 = True
+        return g
+    if isinstance(e, ast.Subscript):
+        g = _gather(du, e.value, at, depth + 1)
+        if g is None:
+            return None
+        idx = e.slice
+        if isinstance(idx, ast.Tuple) and len(idx.elts) == 2:
+            r, c = idx.elts
+        else:
+            r, c = idx, None
+        if r is not None and not _full(r):
+            if g.rows is not None:
+                return None        # rows selected twice: not modelled
+            g.rows = r
+        if c is not None and not _full(c):
+            g.chain.append(c)
+        return g
+    return None
+
+
+def _is_sync_idx(e):
+    return e is not None and "_get_sync_trace_indices_from_meta" in src(e)
+
+
+def _analog_idx(repo, fi, du, e, at):
+    """Is `e` the list of analog sync channels of the metadata?"""
+    if e is None:
+        return False
+    v = expand_name(du, e, at) if isinstance(e, ast.Name) else e
+    if "_get_analog_sync_trace_indices_from_meta" in src(v):
+        return True
+    if isinstance(v, ast.Attribute) and isinstance(v.value, ast.Name) and v.value.id == "self" and fi.cls:
+        q = f"{fi.qualname.rsplit('.', 1)[0]}.{v.attr}"
+        if q in repo.functions:
+            return any(r.value is not None and "_get_analog_sync_trace_indices_from_meta" in src(r.value) for r in returns_of(repo.functions[q].node))
+    return False
+
+
+def _digital_ok(repo, fi, du, e, at, sp):
+    """(ok, why) - e decodes the sync word column(s) of the requested samples"""
+    v = expand_name(du, e, at) if isinstance(e, ast.Name) else e
+    if isinstance(v, ast.Call) and repo.resolve_call(fi, v) == "spikeglx.Reader.read_sync_digital":
+        a = v.args[0] if v.args else kwarg(v, "_slice")
+        return (loc_name(a) == sp, f"read_sync_digital({src(a) if a is not None else ''})")
+    if isinstance(v, ast.Call) and repo.resolve_call(fi, v) == "spikeglx.split_sync" and v.args:
+        g = _gather(du, v.args[0], at if not isinstance(e, ast.Name) else _def_stmt(du, e, at))
+        if g is None:
+            return False, f"split_sync({src(v.args[0])[:60]}) does not read self._raw"
+        ok = loc_name(g.rows) == sp and len(g.chain) == 1 and _is_sync_idx(g.chain[0])
+        return ok, f"split_sync of rows `{src(g.rows) if g.rows is not None else ':'}` / columns {[src(c)[:50] for c in g.chain]} of the raw file"
+    return False, f"`{src(v)[:60]}` is not split_sync(raw sync columns)"
+
+
+def _def_stmt(du, name_node, at):
+    ds = du.strong_reaching(name_node.id, at)
+    return ds[0].stmt if len(ds) == 1 and ds[0].stmt is not None else at
+
+
+def _analog_ok(repo, fi, du, name, at, sp):
+    """(ok, why) - the local `name` holds the analog sync channels of the requested samples, in volts"""
+    ds = [d for d in du.reaching(name, at)]
+    base = [d for d in ds if d.kind == "assign"]
+    if not base:
+        base = [d for d in du.defs if d.var == name and d.kind == "assign"]
+    if not base:
+        return False, f"`{name}` has no definition"
+    whys = []
+    ok_all = True
+    for d in base:
+        v = d.value
+        if isinstance(v, ast.Call) and repo.resolve_call(fi, v) == "spikeglx.Reader.read_sync_analog":
+            a = v.args[0] if v.args else kwarg(v, "_slice")
+            ok = loc_name(a) == sp
+            whys.append(f"read_sync_analog({src(a) if a is not None else ''})")
+        elif isinstance(v, ast.Call) and repo.resolve_call(fi, v) == "spikeglx.Reader.read":
+            b = bind(v, repo.fn("spikeglx.Reader.read"))
+            ok = loc_name(b.bound.get("nsel")) == sp and _analog_idx(repo, fi, du, b.bound.get("csel"), d.stmt) and const_value(b.bound.get("sync")) == (True, False)
+            whys.append(src(v)[:70])
+        else:
+            g = _gather(du, v, d.stmt)
+            if g is None:
+                ok = False
+                whys.append(f"`{src(v)[:60]}` is not a gather of the raw file")
+            else:
+                cols_ok = len(g.chain) == 1 and _analog_idx(repo, fi, du, g.chain[0], d.stmt)
+                # volts: scaled by the conversion factors of the same columns before it is thresholded
+                scaled = False
+                for m in du.defs:
+                    if m.var == name and m.kind in ("aug", "mutate") and isinstance(m.stmt, ast.AugAssign) and isinstance(m.stmt.op, ast.Mult) \
+                            and du.cfg.reachable(d.node, m.node):
+                        gv = m.stmt.value
+                        if isinstance(gv, ast.Subscript) and loc_name(gv.value) in ("self.sample2volts", "self.channel_conversion_sample2v[self.type]") \
+                                and g.chain and norm(gv.slice) == norm(g.chain[0]):
+                            scaled = True
+                already = False
+                if not scaled and len(g.chain) >= 1:
+                    already = False
+                ok = loc_name(g.rows) == sp and cols_ok and scaled and g.f32
+                if len(g.chain) > 1:
+                    whys.append(f"columns {[src(c)[:40] for c in g.chain]} applied one after the other: the analog sync indices address the columns LEFT by the first selection "
+                                "(the caller's channel selection), not the channels of the file")
+                elif not cols_ok:
+                    whys.append(f"columns {[src(c)[:40] for c in g.chain]} are not the analog sync channels of the metadata")
+                elif not scaled or not g.f32:
+                    whys.append("raw integers of the analog sync channels are not converted to volts (float32 * sample2volts of the same columns)")
+                else:
+                    whys.append(f"rows `{src(g.rows) if g.rows is not None else ':'}`, analog sync columns, in volts")
+        ok_all = ok_all and ok
+    return ok_all, "; ".join(whys)
+
+
+def _strip_int_cast(e):
+    while isinstance(e, ast.Call) and call_name(e) in ("int8", "astype", "int16", "asarray", "array") and (e.args or isinstance(e.func, ast.Attribute)):
+        e = e.func.value if (call_name(e) == "astype" and isinstance(e.func, ast.Attribute)) else e.args[0]
+    return e
+
+
+def sync_value(ctx, repo, fi, du, e, at, sp, where):
+    """`e` (a value returned as the decoded sync) is digital | concatenate((digital, analog >= threshold), axis=1) of the samples `sp`."""
+    alts = []
+    if isinstance(e, ast.Name):
+        for d in du.strong_reaching(e.id, at):
+            if d.kind != "assign" or d.value is None:
+                raise AnalysisError(f"{fi.qualname}: sync value `{e.id}` has a definition that is not an assignment")
+            alts.append((d.value, d.stmt))
+    else:
+        alts.append((e, at))
+    n = 0
+    for v, st in alts:
+        if isinstance(v, ast.Call) and repo.resolve_call(fi, v) == "spikeglx.Reader.read_sync":
+            a = v.args[0] if v.args else kwarg(v, "_slice")
+            ctx.check(loc_name(a) == sp, fi, st, st, f"{where}: the sync of the requested samples is decoded by read_sync",
+                      f"{where}: read_sync is given `{src(a) if a is not None else ''}`, not the requested samples `{sp}`", key="sync-of-read")
+            n += 1
+            continue
+        if isinstance(v, ast.Call) and call_name(v) in ("concatenate", "hstack"):
+            parts = v.args[0].elts if v.args and isinstance(v.args[0], (ast.Tuple, ast.List)) else []
+            if len(parts) != 2:
+                raise AnalysisError(f"{fi.qualname}: `{src(v)[:60]}` does not join two parts")
+            okd, whyd = _digital_ok(repo, fi, du, parts[0], st, sp)
+            ctx.check(okd, fi, st, st, f"{where}: digital lines decode the sync word of the requested samples ({whyd})",
+                      f"{where}: the digital part is {whyd}", key="digital-part", name_free=True)
+            an = _strip_int_cast(parts[1])
+            an = expand_name(du, an, st) if isinstance(an, ast.Name) else an
+            nm = None
+            if isinstance(an, ast.Compare):
+                nm = loc_name(an.left)
+            elif isinstance(parts[1], ast.Call) and isinstance(_strip_int_cast(parts[1]), ast.Name):
+                nm = _strip_int_cast(parts[1]).id
+            if nm is None:
+                raise AnalysisError(f"{fi.qualname}: analog part `{src(parts[1])[:60]}` not understood")
+            oka, whya = _analog_ok(repo, fi, du, nm, st, sp)
+            ctx.check(oka, fi, st, st, f"{where}: analog lines are the analog sync channels of the requested samples in volts ({whya[:100]})",
+                      f"{where}: the thresholded analog lines are not the file's analog sync channels of the requested samples - {whya}", key="analog-part", name_free=True)
+            n += 1
+            continue
+        okd, whyd = _digital_ok(repo, fi, du, v, st, sp)
+        if okd:
+            ctx.ok(fi, st, st, f"{where}: digital-only result ({whyd})", key="digital-only")
+            n += 1
+            continue
+        if isinstance(v, ast.Name):
+            n += sync_value(ctx, repo, fi, du, v, st, sp, where)
+            continue
+        raise AnalysisError(f"{fi.qualname}: sync value `{src(v)[:70]}` not understood")
+    return n
+
+
 def d3_read_sync(ctx):
     ctx.rule("D3", "read_sync = concatenate((digital, analog >= threshold), axis=1); digital = split_sync(raw[:, sync columns])")
     repo = ctx.repo
@@ -247,17 +455,26 @@ def d3_read_sync(ctx):
     c = cc[0]
     parts = c.args[0].elts if c.args and isinstance(c.args[0], (ast.Tuple, ast.List)) else []
     ax = kwarg(c, "axis")
-    okp = len(parts) == 2
-    if okp:
-        a, b = parts
-        da = expand_name(du, a, c)
-        bname = next((n.id for n in ast.walk(b) if isinstance(n, ast.Name) and n.id not in ("np",)), None)
-        db = [d for d in du.defs if d.var == bname and d.kind == "assign"]
-        okp = isinstance(da, ast.Call) and repo.resolve_call(fi, da) == "spikeglx.Reader.read_sync_digital" and bool(db) and \
-            any(isinstance(d.value, ast.Call) and repo.resolve_call(fi, d.value) == "spikeglx.Reader.read_sync_analog" for d in db)
+    sp = [p_ for p_ in fi.params if p_ != "self"][0]
     okax = (call_name(c) == "hstack") or (isinstance(ax, ast.Constant) and ax.value in (1, -1))
-    ctx.check(okp and okax, fi, c, c, "digital lines first, thresholded analog lines after, along columns",
+    ctx.check(len(parts) == 2 and okax, fi, c, c, "digital lines first, thresholded analog lines after, along columns",
               f"`{src(c)}` is not concatenate((digital, analog), axis=1)", key="concat")
+    n_ = 0
+    for r in returns_of(fi.node):
+        if r.value is not None:
+            n_ += sync_value(ctx, repo, fi, du, r.value, r, sp, "read_sync")
+    if n_ == 0:
+        raise AnchorMissing("read_sync: no returned sync value evaluated")
+    # read(): the sync handed back next to the data is the sync of the same samples
+    fr = repo.fn("spikeglx.Reader.read")
+    dur = DefUse(fr.node)
+    spr = [p_ for p_ in fr.params if p_ != "self"][0]
+    nr = 0
+    for r in returns_of(fr.node):
+        if isinstance(r.value, ast.Tuple) and len(r.value.elts) == 2:
+            nr += sync_value(ctx, repo, fr, dur, r.value.elts[1], r, spr, "read(sync=True)")
+    if nr == 0:
+        raise AnchorMissing("Reader.read: no (data, sync) return found")
     # complementary threshold stores
     st = [s for s in walk_function(fi.node) if isinstance(s, ast.Assign) and isinstance(s.targets[0], ast.Subscript) and loc_name(s.targets[0].value) == "analog"]
     ops = {}
@@ -289,15 +506,14 @@ def d3_read_sync(ctx):
         ctx.check(first_is_lt, fi, st[0], st[0], "the low side is cleared before the high side is set", "the high side is set first: values set to 1 are then cleared when threshold > 1",
                   key="threshold-order")
     fd = repo.fn("spikeglx.Reader.read_sync_digital")
-    okd = False
+    dud = DefUse(fd.node)
+    spd = [p_ for p_ in fd.params if p_ != "self"][0]
+    okd, whyd = False, "no split_sync(...) is returned"
     for r in returns_of(fd.node):
-        c2 = r.value
-        if isinstance(c2, ast.Call) and repo.resolve_call(fd, c2) == "spikeglx.split_sync" and c2.args:
-            a = c2.args[0]
-            okd = isinstance(a, ast.Subscript) and loc_name(a.value) == "self._raw" and isinstance(a.slice, ast.Tuple) and \
-                "_get_sync_trace_indices_from_meta" in src(a.slice.elts[1]) and loc_name(a.slice.elts[0]) == "_slice"
+        if r.value is not None:
+            okd, whyd = _digital_ok(repo, fd, dud, r.value, r, spd)
     ctx.check(okd, fd, fd.node, "split_sync(self._raw[_slice, sync indices])", "digital lines decode the raw sync column(s) of the requested samples",
-              "read_sync_digital does not decode self._raw[_slice, <sync indices>]", key="digital")
+              f"read_sync_digital does not decode self._raw[_slice, <sync indices>]: {whyd}", key="digital")
 
 
 def dS_shared(ctx):
